@@ -158,6 +158,9 @@ static sqf::runtime::runtime::result execute_do(sqf::runtime::runtime& runtime, 
             // Clear the value-stack part of the frame
             while (context_active.pop_value().has_value());
 
+#ifdef SQFVM_RUNTIME_VERIF
+            const bool verif_plain_frame = context_active.current_frame().verif_plain();
+#endif
             // Pop the actual frame
             context_active.pop_frame();
 
@@ -169,7 +172,7 @@ static sqf::runtime::runtime::result execute_do(sqf::runtime::runtime& runtime, 
             else if (!context_active.empty())
             { context_active.push_value({}); }
 #ifdef SQFVM_RUNTIME_VERIF
-            sqf::runtime::verif::observe(sqf::runtime::verif::obs::frame_done, runtime, val.has_value() ? 1 : 0);
+            sqf::runtime::verif::observe(sqf::runtime::verif::obs::frame_done, runtime, (val.has_value() ? 1 : 0) | (verif_plain_frame ? 2 : 0));
 #endif
 
             // Restart loop-run
